@@ -116,18 +116,30 @@ static bool checkSolved(TransportationProblem &pb, const std::vector<ll> &dem, b
   return true;
 }
 
-static void randomCase(Rng &rng, CaseResult &r) {
+static void randomCase(Rng &rng, CaseResult &r, bool cascade = false) {
+  // cascade: several sinks, more sources, unrelated wide-range costs, capacity barely above demand: many augmenting steps whose
+  // label-correcting searches revisit sinks again and again
   int K = (int)rng.range(1, rng.chance(0.25) ? 16 : 5), S = (int)rng.range(1, rng.chance(0.2) ? 60 : 10);
+  if (cascade) { K = (int)rng.range(4, 10); S = (int)rng.range(K, 24); }
   std::vector<ll> cap(K), dem(S);
   ll maxv = rng.chance(0.3) ? 3 : (rng.chance(0.5) ? 20 : 100000);
-  bool huge = rng.chance(0.1);
+  if (cascade) maxv = rng.chance(0.6) ? 6 : 40;
+  bool huge = !cascade && rng.chance(0.1);
   if (huge) maxv = 10000000000LL;  // demands beyond 32 bits (DemandType is long long)
   for (auto &d : dem) d = rng.range(1, maxv);
   for (auto &c : cap) c = rng.range(1, maxv);
   ll td = 0, tc = 0;
   for (auto d : dem) td += d;
   for (auto c : cap) tc += c;
-  bool useFloat = rng.chance(0.5);
+  if (cascade && rng.chance(0.7)) {
+    // tight: total capacity a little above total demand
+    ll want = td + rng.range(0, 3);
+    for (auto &c : cap) c = std::max<ll>(1, want / K);
+    tc = 0;
+    for (auto c : cap) tc += c;
+    while (tc < want) { cap[rng.range(0, K - 1)] += 1; ++tc; }
+  }
+  bool useFloat = rng.chance(cascade ? 0.2 : 0.5);
   if (huge) useFloat = false;  // float costs are rescaled to ~2^29/K: the 64-bit reference objective would overflow
   int mode = (int)rng.range(0, 3);  // what to do when demand exceeds capacity
   bool balanced = rng.chance(0.2);
@@ -138,8 +150,9 @@ static void randomCase(Rng &rng, CaseResult &r) {
   std::vector<std::vector<int>> ci(K, std::vector<int>(S));
   std::vector<std::vector<float>> cf(K, std::vector<float>(S));
   int cmax = rng.chance(0.3) ? 2 : (rng.chance(0.5) ? 10 : std::min(1000000, (1 << 29) / K));
+  if (cascade) cmax = (int)rng.pick(std::vector<int>{50, 120, 1000, 1000000});
   if (huge) cmax = std::min(cmax, 1000);  // keep the 64-bit reference objective far from overflow
-  bool geometric = rng.chance(0.3);  // costs = |position difference| like the rough legalizer
+  bool geometric = !cascade && rng.chance(0.3);  // costs = |position difference| like the rough legalizer
   std::vector<int> ps(S), pk(K);
   for (auto &p : ps) p = (int)rng.range(0, cmax);
   for (auto &p : pk) p = (int)rng.range(0, cmax);
@@ -186,7 +199,7 @@ static void randomCase(Rng &rng, CaseResult &r) {
     r.fail("C13:solver-threw-on-a-feasible-problem", std::string(e.what()) + ": " + what + " " + pbStr(pb.capacities(), dem, pb.costs()));
   }
   r.nontrivial = S >= 2 && K >= 2;
-  r.sig = what + "K" + std::to_string(K) + "S" + std::to_string(std::min(S / 4, 15)) + "c" + std::to_string(cmax <= 2 ? 0 : cmax <= 10 ? 1 : 2) + (td > tc ? "U" : td == tc ? "B" : "L") + (geometric ? "g" : "r") + (huge ? "H" : "");
+  r.sig = what + "K" + std::to_string(K) + "S" + std::to_string(std::min(S / 4, 15)) + "c" + std::to_string(cmax <= 2 ? 0 : cmax <= 10 ? 1 : 2) + (td > tc ? "U" : td == tc ? "B" : "L") + (geometric ? "g" : "r") + (huge ? "H" : "") + (cascade ? "C" : "");
 }
 
 // exhaustive tiny: case = (S, K, demands, capacities) with values 1..3; enumerates every cost matrix over {0..cmaxv}
@@ -237,6 +250,7 @@ static void exhaustiveCase(uint64_t idx, CaseResult &r, int costValues) {
 int main(int argc, char **argv) {
   std::vector<vf::Part> parts;
   parts.push_back({"c13.random", [](uint64_t, Rng &rng, CaseResult &r) { randomCase(rng, r); }, 20});
+  parts.push_back({"c13.cascade", [](uint64_t, Rng &rng, CaseResult &r) { randomCase(rng, r, true); }, 20});
   parts.push_back({"c13.exhaustive2", [](uint64_t idx, Rng &, CaseResult &r) { exhaustiveCase(idx, r, 2); }, 300});
   parts.push_back({"c13.exhaustive3", [](uint64_t idx, Rng &, CaseResult &r) { exhaustiveCase(idx, r, 3); }, 900});
   return vf::runMain(argc, argv, parts);
